@@ -26,7 +26,7 @@ IDS = ("1", "2", "3", "4", "5")
 
 
 def budget(tier):
-    return {"quick": {"runs": 20000, "wall": 120}, "thorough": {"runs": 1500000, "wall": 1200}}[tier]
+    return {"quick": {"runs": 20000, "wall": 120}, "thorough": {"runs": 240000, "wall": 900}}[tier]
 
 
 def _provider(cs):
